@@ -120,6 +120,7 @@ Definition calls_expected : list Z :=
   | STakeWhile pd =>
       let tw := take_while (papply pd) xs in
       tw ++ firstn 1 (skipn (length tw) xs)
+  | SStdErr => filter (fun x => negb (Z.eqb x 0)) xs      (* the non-nil errors are logged, in order *)
   | _ => if has_fun then xs else []
   end.
 
@@ -162,7 +163,14 @@ Definition c07_ok : bool :=
    else if inputs_closed || (negb is_try && match first_fail the_fail (sent_on 0 ms) with Some _ => true | None => false end) then
      (* end of input, or a fail-fast failure among the elements handed over: the stage ends *)
      outputs_closed ms && forallb complete (seq 0 nobs) && lz_eqb (calls c) calls_expected
-   else true).
+   else true) &&
+  (* StdErr reads whatever is sent (no send ever stays blocked - judged by the trace acceptance), logs a
+     sub-sequence in order while it runs, and is gone once its channel is closed - cancelled or not *)
+  match st with
+  | SStdErr => is_prefix (calls c) calls_expected &&
+               (if inputs_closed then Nat.eqb live_at_end 0 && lz_eqb (calls c) calls_expected else true)
+  | _ => true
+  end.
 
 (* ---------- C09 ---------- *)
 Fixpoint nodupz (l : list Z) : bool :=
@@ -256,7 +264,7 @@ Definition stage_tag (s : stage_code) : N :=
   match s with
   | SMap _ _ _ => 1 | SFMap _ _ _ => 2 | SFilter _ => 3 | SPartition _ => 4 | STake _ => 5 | STakeWhile _ => 6
   | SForEach => 7 | SVoid => 8 | SFold _ => 9 | SJoin _ => 10 | SUnfold _ _ _ _ => 11 | SEmit _ _ _ _ => 12
-  | SThrottle _ _ => 13 | SFork _ _ _ => 14 | SSeq _ => 15
+  | SThrottle _ _ => 13 | SFork _ _ _ => 14 | SSeq _ => 15 | SStdErr => 16
   end%N.
 Definition digest (cs : list case) : list (N * N) :=
   map (fun t => (t, count_where (fun c => N.eqb (stage_tag (stage (pc c))) t) cs)) (map N.of_nat (seq 1 15)).
